@@ -115,11 +115,27 @@ def run_case(case):
             placed[pos] = values[i % len(values)]
         for i, v in enumerate(values[len(far):len(far) + 6]):
             placed[(i % 3, i // 3)] = v
+    second = {}
+    if case.get("two_saves"):
+        # history: write, save, write MORE values (new ones, and over some old ones) on the same open document, save again; the second
+        # file must hold every value of the document as it stood at the second save
+        items = list(placed.items())
+        placed = dict(items[: len(items) // 2])
+        more = gen_values(case["type"], random.Random(case["seed"] + 1), case["n"])
+        second = {pos: more[i % len(more)] for i, (pos, _) in enumerate(items[len(items) // 2:])}
+        for i, (pos, _) in enumerate(items[: len(items) // 8]):
+            second[pos] = more[(i + 3) % len(more)]
     for (r, c), v in placed.items():
         t.write(r, c, v)
     with tempfile.TemporaryDirectory() as td:
         p = os.path.join(td, "v.numbers")
         doc.save(p)
+        if second:
+            for (r, c), v in second.items():
+                t.write(r, c, v)
+            placed.update(second)
+            p = os.path.join(td, "v2.numbers")
+            doc.save(p)
         t2 = Document(p).sheets[0].tables[0]
         if (t2.num_rows, t2.num_cols) != (t.num_rows, t.num_cols):
             return {"detail": f"table is {t.num_rows}x{t.num_cols} after the writes but {t2.num_rows}x{t2.num_cols} after reopening"}
@@ -130,7 +146,7 @@ def run_case(case):
             if type(cell) is not expected_class(v):
                 return {"detail": f"{case['type']} value {v!r:.80} written at ({r},{c}) reads back as {type(cell).__name__} ({cell.value!r:.80})"}
             if not (cell.value == v) or (isinstance(v, bool) and cell.value is not v):
-                return {"detail": f"{case['type']} value {v!r:.80} written at ({r},{c}) reads back as {cell.value!r:.80}"}
+                return {"detail": f"{case['type']} value {v!r:.80} written at ({r},{c}) reads back as {cell.value!r:.80}" + (" (second save of the same open document)" if second else "")}
     return {"ok": True, "count": len(placed)}
 
 
@@ -152,6 +168,7 @@ def main():
     for typ in ("str", "bool", "int", "float", "datetime", "timedelta"):
         for s in range(per // 96 + 1):
             cases.append({"kind": "doc", "type": typ, "seed": a.seed * 7919 + s, "n": 96, "where": "inside"})
+        cases.append({"kind": "doc", "type": typ, "seed": a.seed * 7919 + 50, "n": 96, "where": "inside", "two_saves": True})
         fars = [[(300, 0)], [(0, 300)], [(256, 256)], [(1000, 2)], [(255, 255), (256, 0)], [(12, 8)], [(511, 1), (512, 1)]]
         for i, far in enumerate(fars):
             cases.append({"kind": "doc", "type": typ, "seed": a.seed * 7919 + 100 + i, "n": 12, "where": "far", "far": far})
